@@ -143,10 +143,10 @@ impl Check for C20 {
     fn phases(&self, tier: Tier, b: f64) -> Vec<Phase> {
         let q = tier == Tier::Quick;
         vec![
-            Phase { name: "16 typed-field subsets x random extras (1-5) in every initial order; both orderings", cases: scale(if q { 3000 } else { 100000 }, b), exhaustive: false },
-            Phase { name: "6-8 extras in 16 random orders; both orderings", cases: scale(if q { 3000 } else { 100000 }, b), exhaustive: false },
+            Phase { name: "16 typed-field subsets x random extras (1-5) in every initial order; both orderings", cases: scale(if q { 15000 } else { 100000 }, b), exhaustive: false },
+            Phase { name: "6-8 extras in 16 random orders; both orderings", cases: scale(if q { 15000 } else { 100000 }, b), exhaustive: false },
             Phase { name: "every pair of palette labels as the two extras, both initial orders, all 16 typed-field subsets", cases: (extra_palette().len() * extra_palette().len()) as u64, exhaustive: true },
-            Phase { name: "keys obtained by decoding styled wire forms", cases: scale(if q { 5000 } else { 200000 }, b), exhaustive: false },
+            Phase { name: "keys obtained by decoding styled wire forms", cases: scale(if q { 25000 } else { 200000 }, b), exhaustive: false },
         ]
     }
     fn run_case(&self, ctx: &mut Ctx, phase: usize, idx: u64) {
